@@ -32,7 +32,7 @@ func (w *World) lockOpOf(c *ssa.CallCommon) *lockOp {
 	if rt != "*sync.Mutex" && rt != "*sync.RWMutex" {
 		return nil
 	}
-	switch fn.Name() {
+	switch nm(fn) {
 	case "Lock", "Unlock", "RLock", "RUnlock":
 		return &lockOp{class: lockClass(c.Args[0]), inst: w.locKey(c.Args[0]), op: fn.Name()}
 	}
@@ -43,7 +43,7 @@ func lockClass(v ssa.Value) string {
 	if fa, ok := v.(*ssa.FieldAddr); ok {
 		pt := fa.X.Type().Underlying().(*types.Pointer).Elem()
 		st := pt.Underlying().(*types.Struct)
-		return short(pt.String()) + "." + st.Field(fa.Field).Name()
+		return refTypeStr(pt) + "." + nm(st.Field(fa.Field))
 	}
 	return "?" + short(v.Type().String())
 }
@@ -51,7 +51,17 @@ func lockClass(v ssa.Value) string {
 func fieldClass(fa *ssa.FieldAddr) string {
 	pt := fa.X.Type().Underlying().(*types.Pointer).Elem()
 	st := pt.Underlying().(*types.Struct)
-	return short(pt.String()) + "." + st.Field(fa.Field).Name()
+	return refTypeStr(pt) + "." + nm(st.Field(fa.Field))
+}
+
+// refTypeStr: short name of a type, with a renamed module type under its reference name.
+func refTypeStr(t types.Type) string {
+	if n, ok := t.(*types.Named); ok && n.Obj().Pkg() != nil && n.TypeArgs().Len() == 0 {
+		if a := nm(n.Obj()); a != n.Obj().Name() {
+			return n.Obj().Pkg().Name() + "." + a
+		}
+	}
+	return short(t.String())
 }
 
 type sset map[string]bool
